@@ -387,7 +387,16 @@ func (g *w13Gen) genValueFrameIn(depth int, db byte, embedded bool) ([]byte, str
 			total += 3 + len(vals[i])
 		}
 		lieAt := g.n("vfTightLieAt", 0, np-1)
-		delta := rapid.SampledFrom([]int{1, 2, 3, -1, -2, -3}).Draw(g.t, "vfTightDelta")
+		if g.pct("vfTightLieFirstKey", 60) {
+			// the readers stop at the first entry with the code they look for
+			for i, c := range codes {
+				if c == 1 {
+					lieAt = i
+					break
+				}
+			}
+		}
+		delta := rapid.SampledFrom([]int{1, 2, 3, 1, 2, 3, -1, -2, -3}).Draw(g.t, "vfTightDelta")
 		var props []byte
 		off := 0
 		for i := range codes {
@@ -396,7 +405,7 @@ func (g *w13Gen) genValueFrameIn(depth int, db byte, embedded bool) ([]byte, str
 				if rem := total - off - 3 + delta; rem >= 0 { // relative to everything that is left of the block
 					vl = rem
 				}
-				if g.pct("vfTightOwn", 50) && len(vals[i])+delta >= 0 { // relative to the entry's own value
+				if g.pct("vfTightOwn", 25) && len(vals[i])+delta >= 0 { // relative to the entry's own value
 					vl = len(vals[i]) + delta
 				}
 			}
@@ -1414,7 +1423,8 @@ func (g *w13Gen) genWriterConn(binary bool) w13Conn {
 		if g.pct("wOtherId", 30) {
 			id = g.ids[0]
 		}
-		for i, p := range g.pieces("writerFrames", 1, 2, func(sg *w13Gen) w13Piece {
+		maxFrames := rapid.SampledFrom([]int{1, 1, 2}).Draw(g.t, "writerMaxFrames")
+		for i, p := range g.pieces("writerFrames", 1, maxFrames, func(sg *w13Gen) w13Piece {
 			fb, fd := sg.writerLockFrame(false, id)
 			return w13Piece{B: fb, Note: fd}
 		}) {
